@@ -365,6 +365,7 @@ def run_tools(ctx, fdata, enc, blocked, how):
 
 
 def canaries(ctx):
+    ctx.repo_tests_under_monitors(('C07',))       # second, independent workload for the same oracle
     class Fake(Exception):
         pass
     cls, mech = outcome(ctx, 'exc', ValueError('x'), 'loads')
